@@ -1,7 +1,7 @@
 CONSTANTS
   B = 256
-  MemSize = 10
-  PtrVals = {0,1,2,3}
+  MemSize = 9
+  PtrVals = {0,1,2}
   DataInit <- DataReal
   MaxOps = 2
   Dev = "none"
